@@ -145,6 +145,8 @@ def run(prop, tier, seed, only_replay=None):
                 if job.get("simulate"):
                     ctx.exhaustive = False
                 scns = res["json"]
+                if job.get("kind", "scenarios") == "model":
+                    continue
                 if job.get("kind", "scenarios") == "scenarios":
                     keyed = {json.dumps(s, sort_keys=True): s for s in scns}     # TLC may reach one state twice
                     scns = [keyed[k] for k in sorted(keyed)]
